@@ -18,6 +18,9 @@ THEOREMS = [
     "C14.multi_first_column",
     "C14.multiTraceC_no_ctl",
     "C14.multiObsTraceC_no_ctl",
+    "C14.multi_manager_ctl_meets_spec",
+    "C14.multi_manager_ctl_meets_spec_unique_ids",
+    "C14.multi_ctl_first_column",
     "C14.eviction_hypothesis_needed",
     "C14.no_duplicates_needs_unique_ids",
 ]
@@ -68,7 +71,11 @@ ASSUMPTIONS = [
     "multi-join manager: join ids pairwise distinct, no join with left_stream == right_stream (it would be indexed twice under its "
     "stream); unregister_join / register_join of the same id during the run strictly alternate per join id (registering an id "
     "that is still registered would list it twice under its streams - not generated); the lives of a re-registered join are "
-    "specified by Spec.multiOkC / livesOk (oracle + model correspondence; theorem: conservative over the proven multi-join loop); "
+    "specified by Spec.multiOkC / livesOk and PROVED of the model (multi_manager_ctl_meets_spec: every life of every join meets "
+    "the single-join manager specification against the reference join of that life, silence while away and during control "
+    "calls, other joins unaffected; hypothesis WFC: ids unique per consumed stream within each life - implied by the driver's "
+    "whole-history id check, multi_manager_ctl_meets_spec_unique_ids; alternation is not needed for the theorem, only for the "
+    "model's faithfulness); "
     "stream names are arbitrary and may be shared between joins in any roles",
     "the window is duration.as_secs() in timestamp units - the code's own convention (DESIGN section 8)",
     "inner join with JoinStrategy::TimeWindow only; outer-join emission and Count/Session strategies are outside the model",
@@ -92,7 +99,10 @@ LEVEL_TEXT = ("Lean 4 theorems (kernel-checked, unbounded: every window, every j
               "histories, epoch-scale timestamps and several joins registered on one manager (model vs implementation "
               "per call and per join) and by evaluating the same Spec predicate on the implementation's observations. "
               "multi_manager_meets_spec: for ANY list of registered joins and ANY manager history every join's batches satisfy the "
-              "specification against that join's own reference join.")
+              "specification against that join's own reference join. multi_manager_ctl_meets_spec: the same with "
+              "unregister_join / register_join(same id, fresh node) calls anywhere in the history - every life of every join "
+              "(registration to next unregistration) meets the specification against the reference join of what arrived during "
+              "that life, a join that is away and every control call deliver nothing, other joins do not notice.")
 LEVEL_NOTE = ("Trusted: Lean kernel + {propext, Classical.choice, Quot.sound}; hand-written model tied to the code by differential "
               "testing only; harness/driver glue; outer joins and Count/Session windows not modelled.")
 DESIGN_REF = "§6 C14"
